@@ -1420,6 +1420,28 @@ def m_dict_values(it, d):
     return list(d.vals) if isinstance(d, IDict) else list(d.values())
 
 
+def m_dict_update(it, d, other=(), **kw):
+    if not isinstance(d, IDict):
+        if isinstance(other, IDict):
+            other = dict(zip(other.keys, other.vals))
+        d.update(other, **kw)
+        return None
+    items = other.items_list() if isinstance(other, IDict) else (list(other.items()) if isinstance(other, dict) else list(it.iterate_concrete(other)))
+    for k, v in items:
+        d.set(k, v)
+    for k, v in kw.items():
+        d.set(k, v)
+    return None
+
+
+def m_dict_copy(it, d):
+    if isinstance(d, IDict):
+        r = IDict(it, d.default_factory)
+        r.keys, r.vals = list(d.keys), list(d.vals)
+        return r
+    return d.copy()
+
+
 def m_dict_setdefault(it, d, k, default=None):
     if isinstance(d, IDict):
         i = d._find(k)
